@@ -20,6 +20,7 @@ import typing
 from typing import Any, Callable, Iterable, List, Text, Optional, Tuple, Type
 
 import pyglove.core as pg
+from pyglove.core.utils import _verif_hooks
 from pyglove.ext import scalars
 
 # We disable implicit str concat as it is commonly used class schema docstr.
@@ -698,7 +699,9 @@ class Evolution(pg.DNAGenerator):
 
   def _propose(self) -> pg.DNA:
     """Implementation of DNA proposal."""
+    _verif_hooks.emit('want_alg', aid=id(self), sec=1)
     with self._lock:
+      _verif_hooks.emit('acquire_alg', aid=id(self), sec=1)
       if not self._pending_proposals:
         if self._population_initialized:
           # Propose new individuals using evolution.
@@ -720,6 +723,7 @@ class Evolution(pg.DNAGenerator):
             self._population_initialized = True
             self._global_state.num_generations = 1
             self._pending_proposals.extend(self._evolve())
+      _verif_hooks.emit('evo_proposed', aid=id(self))
       return self._pending_proposals.popleft()
 
   def _evolve(self) -> List[pg.DNA]:
@@ -758,9 +762,12 @@ class Evolution(pg.DNAGenerator):
     """Feedback a DNA with its reward."""
     set_feedback_sequence_number(dna, self._num_feedbacks + 1)
     set_fitness(dna, reward)
+    _verif_hooks.emit('evo_fitness', aid=id(self))
     assert get_fitness(dna) is not None
 
+    _verif_hooks.emit('want_alg', aid=id(self), sec=2)
     with self._lock:
+      _verif_hooks.emit('acquire_alg', aid=id(self), sec=2)
       # Feedback generation-zero DNA to the population initializer.
       if is_initial_population(dna):
         self._init_population_generator.feedback(dna, reward)
@@ -787,6 +794,8 @@ class Evolution(pg.DNAGenerator):
             self._population,
             global_state=self._global_state,
             step=self.num_feedbacks)
+      _verif_hooks.emit('evo_population', size=len(self._population))
+    _verif_hooks.emit('release_alg', aid=id(self), sec=2)
 
   def recover(
       self,
